@@ -325,7 +325,7 @@ def c_abstract_base_kept(cs: Case):
     for key, f in cs.sdiff.items():
         if key.split(' ')[0] not in ('Property', 'Link') or not isinstance(f, set) or 'bases' not in f:
             continue
-        if not f <= {'bases', 'ancestors'} or key not in cs.ob or key not in cs.oa:
+        if not f <= {'bases', 'ancestors', 'pointers'} or key not in cs.ob or key not in cs.oa:
             continue
         rb, bb = _names(cs.dr, key, 'bases'), _names(cs.db, key, 'bases')
         extras = [x for x in rb if x not in bb]
@@ -360,6 +360,12 @@ def c_abstract_base_kept(cs: Case):
         if ok:
             out.add(key)
             out |= _ptr_desc_keys(cs, p, {'ancestors', 'bases'})
+            # link properties that the kept abstract link keeps providing (extra objects in the result)
+            pr = cs.or_.get(key)
+            for k2, f2 in cs.sdiff.items():
+                if f2 == '-' and k2.startswith('Property ') and k2 in cs.or_ and pr is not None \
+                        and cs.or_[k2].get_source(cs.r) == pr:
+                    out.add(k2)
     return {'pointer-keeps-abstract-base-after-drop-base': out} if out else {}
 
 
